@@ -88,3 +88,34 @@ pub fn c14_votes(req: &J) -> J {
         Err(_) => json!({"panicked": true, "msg": crate::last_panic()}),
     }
 }
+
+/// C13: does a stake with the given end epoch survive next_unsealed() at this height?
+pub fn c13_unlock(req: &J) -> J {
+    let network = netid_of(&req["network"]);
+    let db = Database::new(InMemoryCas::default());
+    let mut st: UnsealedState<InMemoryCas> = genesis(network, 0, 0).realize(&db);
+    let height = req["height"].as_u64().unwrap();
+    let sk = Ed25519SK::generate();
+    let mut h = [0u8; 32];
+    h[0] = 7;
+    vh::stakes_mut(&mut st).add_stake(
+        TxHash(HashVal(h)),
+        StakeDoc { pubkey: sk.to_public(), e_start: 0, e_post_end: req["e_post_end"].as_u64().unwrap(), syms_staked: CoinValue(5) },
+    );
+    vh::fabricate(&mut st, network, 0, 0, 0, 0, 1_000_000);
+    let sealed0 = st.clone().seal(None);
+    if height > 0 {
+        let mut hdr = sealed0.header();
+        hdr.height = (height - 1).into();
+        vh::history_mut(&mut st).insert((height - 1).into(), hdr);
+    }
+    vh::fabricate(&mut st, network, height, 0, 0, 0, 1_000_000);
+    let r = catch_unwind(AssertUnwindSafe(|| {
+        let next = st.seal(None).next_unsealed();
+        (vh::stakes(&next).get_stake(TxHash(HashVal(h))).is_some(), vh::height(&next))
+    }));
+    match r {
+        Ok((kept, nh)) => json!({"panicked": false, "kept": kept, "next_height": nh}),
+        Err(_) => json!({"panicked": true, "msg": crate::last_panic()}),
+    }
+}
